@@ -170,7 +170,7 @@ struct PSE2 : TPBase
     const St x = st(s);
     smooth::SE2d g;
     // SE2 coefficients: [x, y, sin, cos]
-    g.coeffs() << (double)x.t[0], (double)x.t[1], (double)std::sin(x.th), (double)std::cos(x.th);
+    g.coeffs() << snap((double)x.t[0]), snap((double)x.t[1]), (double)std::sin(x.th), (double)std::cos(x.th);
     return Args{g};
   }
   FSE2 functor() const { return FSE2{d}; }
